@@ -93,3 +93,103 @@ def rdomain(py, rotation=None, extra=(), symbolic_constants=True, proxy=None):
     patches.extend(extra)
     with patched(*patches):
         yield proxy
+
+
+# ---------------------------------------------------------------------------
+# trace domain
+# ---------------------------------------------------------------------------
+class TRotation:
+    """scipy Rotation in the trace domain: uninterpreted operations (no law used)."""
+
+    def __init__(self, mats, single):
+        self._m = mats
+        self.single = single
+
+    @classmethod
+    def from_euler(cls, seq, angles, degrees=False):
+        import numpy as _np
+        from .sym import TSym, t_const
+        if hasattr(angles, "values") and hasattr(angles, "index"):
+            angles = angles.values
+        arr = _np.asarray(angles, dtype=object)
+        single = arr.ndim == 1
+        rows = [list(arr)] if single else [list(r) for r in arr]
+        mats = []
+        for row in rows:
+            args = [x.e if isinstance(x, TSym) else t_const(x) for x in row]
+            M = _np.empty((3, 3), dtype=object)
+            for i in range(3):
+                for j in range(3):
+                    M[i, j] = TSym(TSym._op("from_euler_%s_%s_%d%d" % (seq, degrees, i, j), *args))
+            mats.append(M)
+        return cls(mats, single)
+
+    @classmethod
+    def from_matrix(cls, mat):
+        import numpy as _np
+        arr = _np.asarray(mat, dtype=object)
+        if arr.ndim == 2:
+            return cls([arr], True)
+        return cls([a for a in arr], False)
+
+    def as_matrix(self):
+        import numpy as _np
+        return self._m[0].copy() if self.single else _np.stack(self._m)
+
+    def as_euler(self, seq, degrees=False):
+        import numpy as _np
+        from .sym import TSym, t_const
+        out = _np.empty((len(self._m), 3), dtype=object)
+        for k, M in enumerate(self._m):
+            args = [x.e if isinstance(x, TSym) else t_const(x) for x in M.reshape(-1)]
+            for i in range(3):
+                out[k, i] = TSym(TSym._op("as_euler_%s_%s_%d" % (seq, degrees, i), *args))
+        return out[0] if self.single else out
+
+
+@contextlib.contextmanager
+def tdomain(py, extra=()):
+    """Run pyins code in the trace domain (uninterpreted operation DAG, DESIGN 2.1-T)."""
+    from .sym import T as _T
+    proxy = NpProxy(TSym)
+    patches = []
+    for m in MODULES:
+        mod = getattr(py, m)
+        names = {}
+        if "np" in mod.__dict__:
+            names["np"] = proxy
+        if "Rotation" in mod.__dict__:
+            names["Rotation"] = TRotation
+        if names:
+            patches.append((mod, names))
+    patches.append((py.earth, {k: _T(k) for k in ("A", "E2", "RATE", "GE", "GP", "F")}))
+    patches.append((py.transform, dict(DEG_TO_RAD=_T("DEG_TO_RAD"), RAD_TO_DEG=_T("RAD_TO_DEG"))))
+    ni = py._numba_integrate
+
+    def rot(rv, mat):
+        for i in range(3):
+            for j in range(3):
+                mat[i, j] = TSym(TSym._op("expm%d%d" % (i, j), *[x.e for x in rv]))
+
+    def grav(lat, alt):
+        return TSym(TSym._op("gravity", lat.e, alt.e))
+    patches.append((ni, dict(gravity=grav, mat_from_rotvec=rot, integrate=py_func(ni.integrate))))
+    patches.append((py.strapdown, dict(integrate=py_func(ni.integrate))))
+    patches.extend(extra)
+    with patched(*patches):
+        yield proxy
+
+
+def _t_from_rotvec(cls, rv, degrees=False):
+    import numpy as _np
+    from .sym import TSym, t_const
+    arr = _np.asarray(rv, dtype=object)
+    args = [x.e if isinstance(x, TSym) else t_const(x) for x in arr.reshape(-1)]
+    M = _np.empty((3, 3), dtype=object)
+    for i in range(3):
+        for j in range(3):
+            M[i, j] = TSym(TSym._op("from_rotvec_%d%d" % (i, j), *args))
+    return cls([M], True)
+
+
+TRotation.from_rotvec = classmethod(_t_from_rotvec)
